@@ -373,7 +373,12 @@ func C18(run *hx.Run) {
 		}
 	}
 	// empty row shortcuts
-	if p, pm := safely(func() { sqlittle.Row{}.ScanString(); sqlittle.Row{}.ScanStringString(); sqlittle.Row{}.ScanStrings(); sqlittle.Row(nil).Scan() }); p {
+	if p, pm := safely(func() {
+		sqlittle.Row{}.ScanString()
+		sqlittle.Row{}.ScanStringString()
+		sqlittle.Row{}.ScanStrings()
+		sqlittle.Row(nil).Scan()
+	}); p {
 		run.Violation("C18/panic/"+panicSite(pm), "Scan shortcuts panicked on an empty row", nil)
 	}
 
